@@ -6,10 +6,15 @@
 //! fmt: 0 f64, 1 f32, 2 i16; 10.. = 10 + code of the fourteen sample formats
 //! (i8 i16 I24 i32 I48 i64 u8 u16 U24 u32 U48 u64 f32 f64); ch: 1 (bare sample as frame) or 2 ([S; 2]).
 //! Integer samples travel as their (inner) value.
-//! ops D: `push s0 [s1]`, `interp <x bits>`, `reset`;  ops V: `next`, `ratio <bits>`.
+//! ops D: `push s0 [s1]`, `interp <x bits>`, `reset`;  ops V: `next`, `ratio <bits>` (set_playback_hz_scale),
+//!   `hz <a bits> <b bits>` (set_hz_to_hz), `srate <bits>` (set_sample_hz_scale), `src` (source()), `srcpull`
+//!   (source_mut().next()), `exh` (is_exhausted), `acc` (accumulator hook), `rebuild <kind> <a bits> <b bits>`
+//!   (into_source(), then kind 0 scale_playback_hz(a) | 1 from_hz_to_hz(a, b) | 2 scale_sample_hz(a) over the
+//!   returned source with a fresh Sinc of the same depth).
 //! Floats travel as IEEE bit patterns (decimal), NaN canonicalised; i16 as integers.
 //! Output: `<sin values>;<cos values>;<7 | 8 code>;` then one observation per op:
-//!   7 unit, `1 v..` interpolated frame (D), `1 pulls v..` converter output (V), `8 code` panic.
+//!   7 unit, `1 v..` interpolated frame (D), `1 pulls v..` converter output (V), `8 code` panic,
+//!   `2 pulls` source(), `3 pulls v..` frame pulled through source_mut(), `4 b` is_exhausted, `5 bits` accumulator.
 //! The sin/cos values are f64::sin / f64::cos (what sinc/ops.rs calls with std) at the requested
 //! arguments: the model takes libm's results from here as data instead of modelling libm.
 use dasp_frame::Frame;
@@ -137,6 +142,9 @@ impl<F: Frame> Signal for Src<F> {
         self.pulls += 1;
         f
     }
+    fn is_exhausted(&self) -> bool {
+        self.pulls >= self.frames.len()
+    }
 }
 
 fn mk_sinc<F: Cod>(depth: usize) -> Result<Sinc<Vec<F>>, i64> {
@@ -189,18 +197,49 @@ where
     };
     out.push(tagged(7, &[]));
     let frames: Vec<F> = source.chunks(ch).map(|c| F::dec(c)).collect();
-    let mut conv = Converter::scale_playback_hz(Src { frames, pulls: 0 }, s, ratio);
+    let mut conv = Some(Converter::scale_playback_hz(Src { frames, pulls: 0 }, s, ratio));
     for op in ops {
         let a: Vec<i128> = op[1..].iter().map(|t| t.parse().unwrap()).collect();
+        let fb = |i: usize| f64::from_bits(a[i] as u64);
         let r = catch(|| match op[0] {
             "next" => {
+                let conv = conv.as_mut().unwrap();
                 let f = conv.next();
                 let mut v = vec![conv.source().pulls as i128];
                 v.extend(f.enc());
                 tagged(1, &v)
             }
             "ratio" => {
-                conv.set_playback_hz_scale(f64::from_bits(a[0] as u64));
+                conv.as_mut().unwrap().set_playback_hz_scale(fb(0));
+                tagged(7, &[])
+            }
+            "hz" => {
+                conv.as_mut().unwrap().set_hz_to_hz(fb(0), fb(1));
+                tagged(7, &[])
+            }
+            "srate" => {
+                conv.as_mut().unwrap().set_sample_hz_scale(fb(0));
+                tagged(7, &[])
+            }
+            "src" => tagged(2, &[conv.as_ref().unwrap().source().pulls as i128]),
+            "srcpull" => {
+                let conv = conv.as_mut().unwrap();
+                let f = conv.source_mut().next();
+                let mut v = vec![conv.source().pulls as i128];
+                v.extend(f.enc());
+                tagged(3, &v)
+            }
+            // is_exhausted of the Converter itself
+            "exh" => tagged(4, &[Signal::is_exhausted(conv.as_ref().unwrap()) as i128]),
+            "acc" => tagged(5, &[f64_bits(conv.as_ref().unwrap().verif_interpolation_value())]),
+            "rebuild" => {
+                let source = conv.take().unwrap().into_source();
+                let s2 = Sinc::new(ring_buffer::Fixed::from(vec![F::EQUILIBRIUM; 2 * depth]));
+                conv = Some(match a[0] {
+                    0 => Converter::scale_playback_hz(source, s2, fb(1)),
+                    1 => Converter::from_hz_to_hz(source, s2, fb(1), fb(2)),
+                    _ => Converter::scale_sample_hz(source, s2, fb(1)),
+                });
                 tagged(7, &[])
             }
             other => panic!("unknown op {}", other),
@@ -208,7 +247,8 @@ where
         match r {
             Ok(o) => out.push(o),
             Err(c) => {
-                // a panic inside next() leaves the converter half-advanced: the case ends here
+                // a panic inside next() leaves the converter half-advanced (a panicking constructor has consumed
+                // the source): the case ends here
                 out.push(tagged(8, &[c as i128]));
                 return;
             }
